@@ -114,7 +114,40 @@ class Write:
         return f"Write({self.kind} {self.cell} in {self.fn.label}:{getattr(self.node, 'lineno', 0)})"
 
 
-def namespace_origin(fn: ast.AST, name: str) -> Tuple[str, str]:
+_CALLEES: Dict[str, ast.AST] = {}  # name / method name -> function node, filled by find_writes for the helper-following below
+
+
+def classify_namespace_expr(v: ast.AST, fn: ast.AST, depth: int = 0) -> Tuple[str, str]:
+    v = strip_cast(v)
+    t = ast.unparse(v)
+    if isinstance(v, ast.Attribute) and v.attr in ("__globals__", "__dict__"):
+        return "shared", t
+    if isinstance(v, ast.Call) and dotted(v.func) in ("globals", "vars", "sys.modules.get"):
+        return "shared", t
+    if isinstance(v, ast.Subscript) and dotted(v.value) == "sys.modules":
+        return "shared", t
+    if isinstance(v, (ast.Dict, ast.DictComp)):
+        return "fresh", t
+    if isinstance(v, ast.Call) and (dotted(v.func) in ("dict", "copy.copy", "copy.deepcopy") or (isinstance(v.func, ast.Attribute) and v.func.attr == "copy")):
+        return "fresh", t
+    if isinstance(v, ast.Name) and depth < 4:
+        return namespace_origin(fn, v.id, depth + 1)
+    if isinstance(v, ast.Call) and depth < 4:
+        # a helper of the repository: what it returns on every path
+        d = dotted(v.func) or ""
+        callee = _CALLEES.get(d.split(".")[-1]) if d and (d.startswith(("self.", "cls.")) or "." not in d) else None
+        if callee is not None:
+            rets = [r.value for r in own_nodes(callee) if isinstance(r, ast.Return) and r.value is not None]
+            kinds = [classify_namespace_expr(r, callee, depth + 1) for r in rets]
+            if kinds:
+                for k in ("shared", "unknown", "fresh"):
+                    for kk, tt in kinds:
+                        if kk == k:
+                            return kk, f"{t} -> {tt}"
+    return "unknown", t
+
+
+def namespace_origin(fn: ast.AST, name: str, depth: int = 0) -> Tuple[str, str]:
     """Where a namespace variable handed to exec / written by subscript comes from:
     ('shared', text) for module namespaces, ('fresh', text) for per-call dicts, ('unknown', text)."""
     origins = []
@@ -125,21 +158,7 @@ def namespace_origin(fn: ast.AST, name: str) -> Tuple[str, str]:
             origins.append(strip_cast(n.value))
     if not origins:
         return "unknown", name
-    kinds = []
-    for v in origins:
-        t = ast.unparse(v)
-        if isinstance(v, ast.Attribute) and v.attr in ("__globals__", "__dict__"):
-            kinds.append(("shared", t))
-        elif isinstance(v, ast.Call) and dotted(v.func) in ("globals", "vars", "sys.modules.get"):
-            kinds.append(("shared", t))
-        elif isinstance(v, ast.Subscript) and dotted(v.value) == "sys.modules":
-            kinds.append(("shared", t))
-        elif isinstance(v, (ast.Dict, ast.DictComp)):
-            kinds.append(("fresh", t))
-        elif isinstance(v, ast.Call) and (dotted(v.func) in ("dict", "copy.copy", "copy.deepcopy") or (isinstance(v.func, ast.Attribute) and v.func.attr == "copy")):
-            kinds.append(("fresh", t))
-        else:
-            kinds.append(("unknown", t))
+    kinds = [classify_namespace_expr(v, fn, depth) for v in origins]
     for k in ("shared", "unknown", "fresh"):
         for kk, t in kinds:
             if kk == k:
@@ -159,6 +178,15 @@ def class_names(repo: Repo) -> Set[str]:
 def find_writes(repo: Repo, fns: Dict[Tuple[str, str], Fn]) -> List[Write]:
     classes = class_names(repo)
     out: List[Write] = []
+    _CALLEES.clear()
+    seen_names: Dict[str, int] = {}
+    for f in fns.values():
+        last = f.qual.split(".")[-1]
+        seen_names[last] = seen_names.get(last, 0) + 1
+    for f in fns.values():
+        last = f.qual.split(".")[-1]
+        if seen_names[last] == 1:  # unambiguous by simple name
+            _CALLEES[last] = f.node
     for f in fns.values():
         globs: Set[str] = set()
         for n in own_nodes(f.node):
